@@ -79,6 +79,20 @@ type c20SackCase struct {
 	DeadlineFault bool
 	MustClose     bool
 	NewErr        bool
+	// InitSeq: the connection's initial sequence number as the SYN-ACK acknowledges it (0 = c20InitSeq);
+	// near 2^32 the probes' sequence numbers wrap inside the run
+	InitSeq uint32
+	// CtlSegments: before each selective ACK the target also sends segments that carry no SACK blocks
+	// because they are not acknowledgements of data — a FIN|ACK, a retransmitted SYN-ACK, a RST for a
+	// stale segment: none of them says anything about SACK support
+	CtlSegments bool
+}
+
+func (c c20SackCase) isn() uint32 {
+	if c.InitSeq != 0 {
+		return c.InitSeq
+	}
+	return c20InitSeq
 }
 
 type c20SackObs struct {
@@ -182,7 +196,7 @@ func c20RunSack(t *testing.T, c c20SackCase, method string) c20SackObs {
 						// SYN-ACK while it waits and must not adopt this one
 						s.Inject(c20TCPFrame(loop, loop, port, clientPort^1, 0x00900000, 0x00700001, 0x12, []byte{2, 4, 0x05, 0xb4, 4, 2}))
 					}
-					s.Inject(c20TCPFrame(loop, loop, port, clientPort, 0x00200000, c20InitSeq, 0x12, opts))
+					s.Inject(c20TCPFrame(loop, loop, port, clientPort, 0x00200000, c.isn(), 0x12, opts))
 				})
 			}
 			snk.OnWrite = func(p bwPacket) {
@@ -197,13 +211,18 @@ func c20RunSack(t *testing.T, c c20SackCase, method string) c20SackObs {
 					src.kick()
 					return
 				}
+				if c.CtlSegments {
+					src.Inject(c20TCPFrame(loop, loop, port, clientPort, 0x00200001, c.isn(), 0x11, nil))                            // FIN|ACK
+					src.Inject(c20TCPFrame(loop, loop, port, clientPort, 0x00200000, c.isn(), 0x12, []byte{2, 4, 0x05, 0xb4, 4, 2})) // retransmitted SYN-ACK
+					src.Inject(c20TCPFrame(loop, loop, port, clientPort, 0x00200001, 0, 0x04, nil))                                  // RST
+				}
 				switch c.Reply {
 				case "sack":
-					left := uint32(c20InitSeq + h.TTL)
+					left := c.isn() + uint32(h.TTL)
 					opt := []byte{5, 10, 0, 0, 0, 0, 0, 0, 0, 0}
 					binary.BigEndian.PutUint32(opt[2:], left)
 					binary.BigEndian.PutUint32(opt[6:], left+1)
-					src.Inject(c20TCPFrame(loop, loop, port, clientPort, 0x00200001, c20InitSeq, 0x10, opt))
+					src.Inject(c20TCPFrame(loop, loop, port, clientPort, 0x00200001, c.isn(), 0x10, opt))
 				case "plain":
 					src.Inject(c20TCPFrame(loop, loop, port, clientPort, 0x00200001, c20InitSeq, 0x10, nil))
 				case "partial-block":
@@ -294,6 +313,8 @@ func c20SackCases() []c20SackCase {
 		mk("sack-capable", "", nil),
 		mk("sack-capable-timestamps", "", func(c *c20SackCase) { c.SynAck = "sackperm-ts" }),
 		mk("sack-capable-foreign-synack-first", "", func(c *c20SackCase) { c.ForeignSynAck = true }),
+		mk("sack-capable-isn-wraps", "", func(c *c20SackCase) { c.InitSeq = 0xffffffff }),
+		mk("sack-capable-control-segments", "", func(c *c20SackCase) { c.CtlSegments = true }),
 		mk("port-closed", "dial", func(c *c20SackCase) { c.Listen = false }),
 		mk("no-sack-permitted", "no-sack-permitted", func(c *c20SackCase) { c.SynAck = "plain" }),
 		mk("acks-without-sack-blocks", "ack-without-sack", func(c *c20SackCase) { c.Reply = "plain" }),
